@@ -389,6 +389,12 @@ func (runInfo *runInfoStruct) makeCallArgs(rt reflect.Type, isRunVMFunction bool
 
 	// number of expressions
 	numExprs := len(callExpr.SubExprs)
+	if callExpr.VarArg && numExprs < 1 {
+		// f(...) has nothing to spread
+		runInfo.err = newStringError(callExpr, "call is variadic but has no arguments")
+		runInfo.rv = nilValue
+		return nil, false
+	}
 	// checks to short circuit wrong number of arguments
 	if (!rt.IsVariadic() && !callExpr.VarArg && numIn != numExprs) ||
 		(rt.IsVariadic() && callExpr.VarArg && (numIn < numExprs || numIn > numExprs+1)) ||
